@@ -1,6 +1,8 @@
 package fn
 
 import (
+	"sigs.k8s.io/controller-runtime/pkg/client"
+
 	"fmt"
 	"time"
 
@@ -363,6 +365,68 @@ func (e *C18) Run(ctx *core.Ctx, idx int) {
 		// Which setting does a replica-set sync attach to which node? Observed through the pods it creates.
 		if len(order) > 0 && order[0] == 0 || ns == 1 { // one order per population is enough for this part
 			e.podsPart(ctx, s, ctl, sd, st, desc, attrs)
+		}
+		// The same controller instance later on: the user edits the node selector of one well-formed setting so that it
+		// selects what another well-formed one selects (an overlap that did not exist when the controller first saw the
+		// two), then every setting is reconciled once more, in this order. Whatever the controller kept from its earlier
+		// reconciles, "once each has been reconciled against the same cluster state at most one is valid" for a node.
+		{
+			var wf []int
+			for i, d := range sd {
+				if d.HasRef && !d.Broken {
+					wf = append(wf, i)
+				}
+			}
+			var cand [][2]int
+			for _, i := range wf {
+				for _, j := range wf {
+					if i == j {
+						continue
+					}
+					for _, n := range nodes {
+						if match(sd[j], n.Labels) {
+							cand = append(cand, [2]int{i, j})
+							break
+						}
+					}
+				}
+			}
+			if len(cand) > 0 {
+				pr := cand[ctx.Rand.Intn(len(cand))]
+				sd2 := append([]c18Setting{}, sd...)
+				sd2[pr[0]].Sel = *sd[pr[1]].Sel.DeepCopy()
+				s.Mutate(simapi.KindSetting, "ns", sd[pr[0]].Name, func(o client.Object) {
+					o.(*v1.ExtendedDaemonsetSetting).Spec.NodeSelector = *sd[pr[1]].Sel.DeepCopy()
+				})
+				ctx.Count("C18.selector-edits-on-a-running-controller-judged")
+				panicked := false
+				for _, i := range order {
+					if out := ctl.Reconcile("setting", "ns", sd[i].Name, "fn"); out.Panic != "" {
+						ctx.Violation("C18", "C18.no-panic", map[string]string{"panic": out.Panic, "after": "selector-edited-on-a-running-controller"}, desc)
+						panicked = true
+						break
+					}
+				}
+				st2 := map[string]string{}
+				for _, n := range nodes {
+					cnt := 0
+					for _, d := range sd2 {
+						if o := s.Peek(simapi.KindSetting, "ns", d.Name); o != nil {
+							x := o.(*v1.ExtendedDaemonsetSetting)
+							st2[d.Name] = string(x.Status.Status) + " " + x.Status.Error
+							if x.Status.Status == v1.ExtendedDaemonsetSettingStatusValid && match(d, n.Labels) {
+								cnt++
+							}
+						}
+					}
+					if cnt > 1 && !panicked {
+						d2["edited"] = sd[pr[0]].Name + " now selects what " + sd[pr[1]].Name + " selects"
+						d2["status-after-the-edit-and-one-pass"] = st2
+						fail("C18.mutual-exclusion", map[string]string{"after": "selector-edited-on-a-running-controller"})
+						break
+					}
+				}
+			}
 		}
 	}
 }
